@@ -164,6 +164,7 @@ func main() {
 		out["keepAlive"] = keepAliveFacts(drv)
 		out["supervisor"] = supervisorFacts(drv)
 		out["readSide"] = readFacts(llrp)
+		out["chanCaps"] = chanCaps(llrp)
 		enc := json.NewEncoder(os.Stdout)
 		enc.SetIndent("", " ")
 		if err := enc.Encode(out); err != nil {
@@ -695,5 +696,99 @@ func cmdSwitches(p *Pkg) map[string][]map[string]string {
 		walk(fd.Body, "")
 		out[fn] = rows
 	}
+	return out
+}
+
+// ---------------------------------------------------------------- channel capacities
+
+// ChanMake is one `make(chan T[, cap])` of package llrp: the function it occurs in, the variable or struct field it
+// initialises, the element type, the capacity expression as written and its constant value (0 = unbuffered).
+type ChanMake struct {
+	Func    string `json:"func"`
+	Name    string `json:"name"`
+	Elem    string `json:"elem"`
+	CapExpr string `json:"capExpr"`
+	Cap     string `json:"cap"`
+	Pos     string `json:"pos"`
+}
+
+// chanCaps lists every channel creation of the package. The client model (C03/C08/C09) assumes particular capacities
+// (reply channel 1, token channel 1, errs 2, sendQueue 0, ackQueue ackQueueSz); a capacity that is not a constant, or
+// a channel created in a way this function does not recognise, is a broken tie.
+func chanCaps(p *Pkg) []ChanMake {
+	var out []ChanMake
+	for _, fd := range p.funcs() {
+		if fd.Body == nil {
+			continue
+		}
+		fn := funcName(fd)
+		record := func(name string, call *ast.CallExpr) {
+			ct, ok := call.Args[0].(*ast.ChanType)
+			if !ok {
+				fail("%s: make of a named channel type is not supported: %s", p.pos(call), types.ExprString(call))
+			}
+			m := ChanMake{Func: fn, Name: name, Elem: types.ExprString(ct.Value), CapExpr: "", Cap: "0", Pos: p.pos(call)}
+			if len(call.Args) > 1 {
+				m.CapExpr = types.ExprString(call.Args[1])
+				tv, ok := p.info.Types[call.Args[1]]
+				if !ok || tv.Value == nil {
+					fail("%s: channel capacity %s is not a constant", p.pos(call), m.CapExpr)
+				}
+				m.Cap = tv.Value.ExactString()
+			}
+			out = append(out, m)
+		}
+		isMakeChan := func(e ast.Expr) *ast.CallExpr {
+			call, ok := e.(*ast.CallExpr)
+			if !ok || len(call.Args) == 0 {
+				return nil
+			}
+			if id, ok := call.Fun.(*ast.Ident); !ok || id.Name != "make" {
+				return nil
+			}
+			if tv, ok := p.info.Types[call.Args[0]]; ok {
+				if _, isChan := tv.Type.Underlying().(*types.Chan); isChan {
+					return call
+				}
+				return nil
+			}
+			if _, ok := call.Args[0].(*ast.ChanType); ok {
+				return call
+			}
+			return nil
+		}
+		seen := map[*ast.CallExpr]bool{}
+		ast.Inspect(fd.Body, func(n ast.Node) bool {
+			switch x := n.(type) {
+			case *ast.AssignStmt:
+				for i, r := range x.Rhs {
+					if call := isMakeChan(r); call != nil && i < len(x.Lhs) {
+						seen[call] = true
+						record(types.ExprString(x.Lhs[i]), call)
+					}
+				}
+			case *ast.ValueSpec:
+				for i, r := range x.Values {
+					if call := isMakeChan(r); call != nil && i < len(x.Names) {
+						seen[call] = true
+						record(x.Names[i].Name, call)
+					}
+				}
+			case *ast.KeyValueExpr:
+				if call := isMakeChan(x.Value); call != nil {
+					seen[call] = true
+					record(types.ExprString(x.Key), call)
+				}
+			case *ast.CallExpr:
+				if call := isMakeChan(x); call != nil && !seen[call] {
+					// a channel created in an expression position we do not name (argument, return value, …)
+					seen[call] = true
+					record("_", call)
+				}
+			}
+			return true
+		})
+	}
+	sort.SliceStable(out, func(i, j int) bool { return out[i].Pos < out[j].Pos })
 	return out
 }
